@@ -737,6 +737,167 @@ impl Chain {
     }
 }
 
+/// What `Chain::add_block_with_tx` did.
+#[derive(Clone, Debug)]
+pub struct MinedTx {
+    pub block_id: usize,
+    pub height: u32,
+    /// model ids of the outputs that decrypt under a wallet account's keys, in output order
+    pub notes: Vec<usize>,
+    /// model ids of the notes whose nullifiers the transaction reveals
+    pub spent: Vec<usize>,
+}
+
+impl Chain {
+    /// Appends a block whose only transaction is the REAL transaction `tx` (as a light-client server would serve it:
+    /// txid, Sapling nullifiers, and cmu / ephemeral key / first 52 ciphertext bytes of every Sapling output; Orchard
+    /// and Ironwood actions likewise), with the model bookkeeping of `add_block_inner`: a `NoteRec` for every Sapling
+    /// output that decrypts under a wallet account's external or internal incoming viewing key (value, scope,
+    /// position = tree size before the transaction + output index, nullifier from the decrypted note at that position),
+    /// a `SpendRec` for every revealed nullifier (linked to the model note it belongs to), true frontiers, sizes and
+    /// commitment lists. Existing items are untouched; nothing is drawn from the chain's RNG except the block hash.
+    ///
+    /// `None` (and no block is added) when the transaction could not be mined on the current branch or the model
+    /// cannot account for it: a revealed nullifier belongs to a model note that is not on the branch or is already
+    /// spent there; it reveals the same nullifier twice; or it carries Orchard / Ironwood actions (their outputs are
+    /// not trial-decrypted by the model; no caller builds such transactions yet).
+    pub fn add_block_with_tx(&mut self, world: &World, tx: &zcash_primitives::transaction::Transaction) -> Option<MinedTx> {
+        use zcash_client_backend::proto::compact_formats::{CompactOrchardAction, CompactSaplingOutput};
+        let height = self.tip_height() + 1;
+        let bh = BlockHeight::from_u32(height);
+        let mut ctx = CompactTx { index: 0, txid: tx.txid().as_ref().to_vec(), ..Default::default() };
+        if let Some(b) = tx.sapling_bundle() {
+            for s in b.shielded_spends() {
+                ctx.spends.push(CompactSaplingSpend::from(s));
+            }
+            for o in b.shielded_outputs() {
+                ctx.outputs.push(CompactSaplingOutput::from(o));
+            }
+        }
+        if let Some(b) = tx.orchard_bundle() {
+            for a in b.actions() {
+                ctx.actions.push(CompactOrchardAction::from(a));
+            }
+        }
+        if let Some(b) = tx.ironwood_bundle() {
+            for a in b.actions() {
+                ctx.ironwood_actions.push(CompactOrchardAction::from(a));
+            }
+        }
+        if !ctx.actions.is_empty() || !ctx.ironwood_actions.is_empty() {
+            return None;
+        }
+        let txid: [u8; 32] = *tx.txid().as_ref();
+        if self.branch.iter().any(|b| self.blocks[*b].txs.iter().any(|t| t.txid == txid)) {
+            // already mined on this branch
+            return None;
+        }
+
+        // revealed nullifiers -> model notes of the current branch
+        let mut spends: Vec<SpendRec> = vec![];
+        let mut newly_spent: Vec<usize> = vec![];
+        for (i, s) in ctx.spends.iter().enumerate() {
+            let nf: [u8; 32] = s.nf.clone().try_into().ok()?;
+            let any: Vec<&NoteRec> = self.notes.iter().filter(|n| n.pool == Pool::Sapling && n.nf == nf).collect();
+            let note = match any.iter().rev().find(|n| self.on_branch(n.block_id)) {
+                Some(n) => {
+                    if n.height >= height || self.spent_on_branch.contains_key(&n.id) || newly_spent.contains(&n.id) {
+                        return None;
+                    }
+                    Some(n.id)
+                }
+                // the note exists only on an abandoned branch: the spend is invalid here
+                None if !any.is_empty() => return None,
+                None => None,
+            };
+            if let Some(n) = note {
+                newly_spent.push(n);
+            }
+            spends.push(SpendRec { pool: Pool::Sapling, nf, note, index: i as u32 });
+        }
+
+        let prev_hash = if height - 1 == self.base_height { [0u8; 32] } else { self.block_at(height - 1).unwrap().hash };
+        let prior_state = self.state_at(height - 1).clone();
+        let prior_sizes = self.sizes_at(height - 1);
+        let id = self.blocks.len();
+
+        // outputs that belong to the wallet
+        let zip212 = zcash_primitives::transaction::components::sapling::zip212_enforcement(&world.net, bh);
+        let mut new_notes: Vec<NoteRec> = vec![];
+        for (oi, o) in ctx.outputs.iter().enumerate() {
+            let cod = sapling::note_encryption::CompactOutputDescription::try_from(o).ok()?;
+            let position = prior_sizes[0] as u64 + oi as u64;
+            'found: for (ai, keys) in world.accounts.iter().enumerate() {
+                for scope in [Scope::External, Scope::Internal] {
+                    let ivk = sapling::keys::PreparedIncomingViewingKey::new(&keys.sapling.to_ivk(scope));
+                    if let Some((note, _)) = sapling::note_encryption::try_sapling_compact_note_decryption(&ivk, &cod, zip212) {
+                        let nid = self.notes.len() + new_notes.len();
+                        new_notes.push(NoteRec {
+                            id: nid,
+                            pool: Pool::Sapling,
+                            who: Who::Wallet(ai as u8),
+                            scope: if scope == Scope::Internal { ScopeSel::Internal } else { ScopeSel::External },
+                            value: note.value().inner(),
+                            nf: note.nf(&keys.sapling.to_nk(scope), position).0,
+                            cm: o.cmu.clone().try_into().ok()?,
+                            position,
+                            height,
+                            block_id: id,
+                            txid,
+                            tx_index: 0,
+                            out_index: oi as u32,
+                        });
+                        break 'found;
+                    }
+                }
+            }
+        }
+
+        // true frontier + commitment list (Sapling only: there are no Orchard-family actions)
+        let mut sap = prior_state.final_sapling_tree().clone();
+        let mut commitments: [Vec<[u8; 32]>; 3] = [vec![], vec![], vec![]];
+        let mut completed_shards: Vec<(usize, u64, [u8; 32])> = vec![];
+        let shard_level = incrementalmerkletree::Level::from(16);
+        for o in &ctx.outputs {
+            let b: [u8; 32] = o.cmu.clone().try_into().ok()?;
+            sap.append(sapling::Node::from_cmu(&o.cmu().ok()?));
+            commitments[0].push(b);
+            let size = sap.tree_size();
+            if size % (1 << 16) == 0 {
+                completed_shards.push((0, size / (1 << 16) - 1, sap.value().unwrap().root(Some(shard_level)).to_bytes()));
+            }
+        }
+        let mut sizes = prior_sizes;
+        sizes[0] += ctx.outputs.len() as u32;
+        let mut hash = [0u8; 32];
+        self.rng.fill_bytes(&mut hash);
+        let rec = TxRec { txid, index: 0, recv: new_notes.iter().map(|n| n.id).collect(), spends };
+        let cb = CompactBlock {
+            height: height as u64,
+            hash: hash.to_vec(),
+            prev_hash: prev_hash.to_vec(),
+            time: 1_700_000_000 + height,
+            header: vec![],
+            vtx: vec![ctx],
+            chain_metadata: Some(ChainMetadata {
+                sapling_commitment_tree_size: sizes[0],
+                orchard_commitment_tree_size: sizes[1],
+                ironwood_commitment_tree_size: sizes[2],
+            }),
+        };
+        let state_after = ChainState::new(bh, BlockHash(hash), sap, prior_state.final_orchard_tree().clone(), prior_state.final_ironwood_tree().clone());
+        let parent = if height - 1 == self.base_height { None } else { Some(self.block_at(height - 1).unwrap().id) };
+        let out = MinedTx { block_id: id, height, notes: rec.recv.clone(), spent: newly_spent.clone() };
+        self.blocks.push(BlockRec { id, parent, height, hash, prev_hash, cb, txs: vec![rec], state_after, sizes_after: sizes, commitments, completed_shards });
+        self.branch.push(id);
+        self.notes.extend(new_notes);
+        for n in newly_spent {
+            self.spent_on_branch.insert(n, id);
+        }
+        Some(out)
+    }
+}
+
 /// A `BlockSource` over an explicit list of compact blocks (cloned out of the model).
 pub struct VecBlockSource(pub Vec<CompactBlock>);
 
